@@ -491,7 +491,7 @@ void cmi_dataset_histogram_fill(struct cmi_dataset_histogram *hp,
     /* Distribute x-values to bins */
     for (uint64_t ui = 0u; ui < n; ui++) {
         /* In what bin does this x-value belong? */
-        uint16_t bin;
+        unsigned bin;
         if (xa[ui] < hp->low_lim) {
             bin = 0u;
         }
@@ -499,7 +499,7 @@ void cmi_dataset_histogram_fill(struct cmi_dataset_histogram *hp,
             bin = hp->num_bins - 1u;
         }
         else {
-            bin = 1u + (uint16_t)((xa[ui] - hp->low_lim) / hp->binsize);
+            bin = 1u + (unsigned)((xa[ui] - hp->low_lim) / hp->binsize);
         }
 
         /* Add it to that bin and note the high-water mark */
